@@ -5,6 +5,7 @@ import (
 	"fmt"
 	"sort"
 	"strings"
+	"time"
 
 	"gzverify/load"
 	"gzverify/rep"
@@ -57,6 +58,12 @@ var thoroughConfigs = [][]string{{"GOOS=darwin"}, {"GOOS=windows"}, {"GOARCH=386
 func runOnce(id string, d *propDef, r *rep.Report, tier string, env []string, overlay map[string][]byte, label string) {
 	before := len(r.Obs)
 	p, err := d.doLoad(tier, env, overlay)
+	// a load that raced with another go command rewriting the build cache (export data of a dependency half
+	// written) shows up as type errors in packages nobody touched: load again before calling it undecided
+	for attempt := 0; attempt < 2 && err == nil && len(p.Errors) > 0 && overlay == nil; attempt++ {
+		time.Sleep(2 * time.Second)
+		p, err = d.doLoad(tier, env, overlay)
+	}
 	if err != nil {
 		r.Undecided(id+".load", "go/packages"+label, "the module loads", err.Error())
 		return
